@@ -76,21 +76,21 @@ func (v *legacyVisitor) VisitParentheses(ctx *gen.ParenthesesContext) any {
 
 // VisitNegation deals with negations such as -5
 func (v *legacyVisitor) VisitNegation(ctx *gen.NegationContext) any {
-	return fmt.Sprintf("-%s", v.Visit(ctx.Expression()))
+	return fmt.Sprintf("-%s", group(v.Visit(ctx.Expression()).(string), levelNegation))
 }
 
 // VisitExponentExpression deals with exponenets such as 5^5
 func (v *legacyVisitor) VisitExponentExpression(ctx *gen.ExponentExpressionContext) any {
-	arg1 := v.Visit(ctx.Expression(0))
-	arg2 := v.Visit(ctx.Expression(1))
+	arg1 := groupLeft(v.Visit(ctx.Expression(0)).(string), levelExponent)
+	arg2 := groupRight(v.Visit(ctx.Expression(1)).(string), levelExponent)
 
 	return fmt.Sprintf("%s ^ %s", arg1, arg2)
 }
 
 // VisitConcatenation deals with string concatenations like "foo" & "bar"
 func (v *legacyVisitor) VisitConcatenation(ctx *gen.ConcatenationContext) any {
-	arg1 := v.Visit(ctx.Expression(0))
-	arg2 := v.Visit(ctx.Expression(1))
+	arg1 := groupLeft(v.Visit(ctx.Expression(0)).(string), levelConcatenation)
+	arg2 := groupRight(v.Visit(ctx.Expression(1)).(string), levelConcatenation)
 
 	return fmt.Sprintf("%s & %s", arg1, arg2)
 }
@@ -113,13 +113,14 @@ func (v *legacyVisitor) VisitAdditionOrSubtractionExpression(ctx *gen.AdditionOr
 
 	if arg1Type == "number" && arg2Type == "number" {
 		// we are adding two numbers
-		return fmt.Sprintf("%s %s %s", arg1, op, arg2)
+		return fmt.Sprintf("%s %s %s", groupLeft(arg1, levelAdditive), op, groupRight(arg2, levelAdditive))
 
 	} else if arg1Type == "datetime" && arg2Type == "number" {
 		// we are adding a datetime and a number (of days)
 		template := `datetime_add(%s, %s, "D")`
 		if op == "-" {
 			template = `datetime_add(%s, -%s, "D")`
+			arg2 = group(arg2, levelNegation)
 		}
 
 		return fmt.Sprintf(template, arg1, arg2)
@@ -129,6 +130,7 @@ func (v *legacyVisitor) VisitAdditionOrSubtractionExpression(ctx *gen.AdditionOr
 		template := `datetime_add(%s, %s, "D")`
 		if op == "-" {
 			template = `datetime_add(%s, -%s, "D")`
+			arg2 = group(arg2, levelNegation)
 		}
 
 		if !v.options.RawDates {
@@ -158,13 +160,13 @@ func (v *legacyVisitor) VisitAdditionOrSubtractionExpression(ctx *gen.AdditionOr
 	if op == "+" {
 		return fmt.Sprintf("legacy_add(%s, %s)", arg1, arg2)
 	}
-	return fmt.Sprintf("legacy_add(%s, -%s)", arg1, arg2)
+	return fmt.Sprintf("legacy_add(%s, -%s)", arg1, group(arg2, levelNegation))
 }
 
 // VisitEquality deals with equality or inequality tests 5 = 5 and 5 != 5
 func (v *legacyVisitor) VisitEqualityExpression(ctx *gen.EqualityExpressionContext) any {
-	arg1 := v.Visit(ctx.Expression(0))
-	arg2 := v.Visit(ctx.Expression(1))
+	arg1 := groupLeft(v.Visit(ctx.Expression(0)).(string), levelEquality)
+	arg2 := groupRight(v.Visit(ctx.Expression(1)).(string), levelEquality)
 
 	if ctx.EQ() != nil {
 		return fmt.Sprintf("%s = %s", arg1, arg2)
@@ -175,8 +177,8 @@ func (v *legacyVisitor) VisitEqualityExpression(ctx *gen.EqualityExpressionConte
 
 // VisitMultiplicationOrDivision deals with division and multiplication such as 5*5 or 5/2
 func (v *legacyVisitor) VisitMultiplicationOrDivisionExpression(ctx *gen.MultiplicationOrDivisionExpressionContext) any {
-	arg1 := v.Visit(ctx.Expression(0))
-	arg2 := v.Visit(ctx.Expression(1))
+	arg1 := groupLeft(v.Visit(ctx.Expression(0)).(string), levelMultiplicative)
+	arg2 := groupRight(v.Visit(ctx.Expression(1)).(string), levelMultiplicative)
 
 	if ctx.TIMES() != nil {
 		return fmt.Sprintf("%s * %s", arg1, arg2)
@@ -187,8 +189,8 @@ func (v *legacyVisitor) VisitMultiplicationOrDivisionExpression(ctx *gen.Multipl
 
 // VisitComparison deals with visiting a comparison between two values, such as 5<3 or 3>5
 func (v *legacyVisitor) VisitComparisonExpression(ctx *gen.ComparisonExpressionContext) any {
-	arg1 := v.Visit(ctx.Expression(0))
-	arg2 := v.Visit(ctx.Expression(1))
+	arg1 := groupLeft(v.Visit(ctx.Expression(0)).(string), levelComparison)
+	arg2 := groupRight(v.Visit(ctx.Expression(1)).(string), levelComparison)
 
 	return fmt.Sprintf("%s %s %s", arg1, ctx.GetOp().GetText(), arg2)
 }
